@@ -246,6 +246,8 @@ func genC20(p *plan.Plan, r *plan.Rng, tier string) {
 		next++
 		p.Sessions = append(p.Sessions, one(fmt.Sprintf("x%d", next), randDecodeStep(r, true)))
 	}
+	next++
+	p.Sessions = append(p.Sessions, pathSyntaxSession(r, fmt.Sprintf("S%d", next), 12))
 	interleave(p, r, 1, 20)
 	if Variant == "inst-race" || Variant == "inst" {
 		asTasks(p, r)
@@ -429,6 +431,8 @@ func genC06(p *plan.Plan, r *plan.Rng, tier string) {
 			p.Sessions = append(p.Sessions, one(id("u"), st))
 		case k < 16:
 			p.Sessions = append(p.Sessions, decoderSession(r, id("D"), true))
+		case k == 16:
+			p.Sessions = append(p.Sessions, pathSyntaxSession(r, id("S"), 25))
 		default:
 			s := plan.Session{ID: id("P")}
 			s.Steps = append(s.Steps, plan.Step{Op: "path_new", H: "p", S1: randPathText(r)})
